@@ -16,5 +16,7 @@ for d in sorted(glob.glob("/verif/seeded/C*_*")):
         res = f"exit {db['exit_code']}, {db.get('violations', 0)} VIOLATION"
     if db.get("note"):
         res += " (" + db["note"] + ")"
+    if db.get("note_final_tree"):
+        res += " [at 77bfced; the patch conflicts with later repairs]"
     fv = (db.get("first_violation") or "").replace("|", "/")[:110]
     print(f"| {sd} | {note.replace('|', '/')} | {res} | {fv} |")
